@@ -163,6 +163,71 @@ package server
 //@   trusted queue internals (holder queue), subject of C20
 //@   modifies LockManagerLockQueue.fastIndex, LockManagerLockQueue.fastQueue, LockQueue.*, E_LJPserver_Lock, E_Pserver_Lock, E_int32
 
+// the plain ring behind the wait queue (LockManagerRingQueue) is a window queue[index:len(queue)] over one slice; its four
+// operations are verified against that view: Push appends (after possibly sliding the window to the front of the slice),
+// Pop takes the first element of the window, Head reads it, Len is the window's length - FIFO for all inputs
+//@ spec func ringInv(q) = q != nil && 0 <= q.index && q.index <= len(q.queue)
+//@ spec func ringLen(q) = len(q.queue) - q.index
+//@ func (*LockManagerRingQueue).Push
+//@   requires C20.ring.inv: ringInv(self)
+//@   ensures C20.ring.push,C04.ring.push: ringInv(self) && ringLen(self) == old(ringLen(self)) + 1 && self.queue[len(self.queue)-1] == lock
+//@   ensures C20.ring.push-keeps,C04.ring.push-keeps: forall(k, 0, old(ringLen(self)), self.queue[self.index + k] == old(self.queue[self.index + k]))
+//@   modifies LockManagerRingQueue.queue@self, LockManagerRingQueue.index@self, E_Pserver_Lock
+//@ func (*LockManagerRingQueue).Pop
+//@   requires C20.ring.inv: ringInv(self)
+//@   ensures C20.ring.pop,C04.ring.pop: ringInv(self) && implies(old(ringLen(self)) == 0, result == nil && ringLen(self) == 0) && implies(old(ringLen(self)) > 0, result == old(self.queue[self.index]) && ringLen(self) == old(ringLen(self)) - 1)
+//@   ensures C20.ring.pop-keeps,C04.ring.pop-keeps: forall(k, 0, ringLen(self), self.queue[self.index + k] == old(self.queue[self.index + 1 + k]))
+//@   ensures C20.ring.pop-empty-pure: implies(old(ringLen(self)) == 0, sameheap(E_Pserver_Lock) && self.queue == old(self.queue) && self.index == old(self.index))
+//@   modifies LockManagerRingQueue.queue@self, LockManagerRingQueue.index@self, E_Pserver_Lock
+//@ func (*LockManagerRingQueue).Head
+//@   requires C20.ring.inv: ringInv(self)
+//@   ensures C20.ring.head,C04.ring.head: result == ite(ringLen(self) > 0, self.queue[self.index], nil)
+//@   modifies nothing
+//@ func (*LockManagerRingQueue).Len
+//@   requires C20.ring.inv: ringInv(self)
+//@   ensures C20.ring.len: result == ringLen(self)
+//@   modifies nothing
+
+// the priority ring: one plain ring per priority, nodes in strictly decreasing priority. Pop / Head / MaxPriority answer from the
+// first node whose ring is not empty (highest priority first, FIFO inside a priority), for all inputs
+//@ spec func prioNodesOk(q) = q != nil && forall(i, 0, len(q.priorityNodes), q.priorityNodes[i] != nil && q.priorityNodes[i].ringQueue != nil && ringInv(q.priorityNodes[i].ringQueue))
+//@ spec func prioSorted(q) = forall(i, 0, len(q.priorityNodes) - 1, q.priorityNodes[i].priority > q.priorityNodes[i+1].priority)
+//@ spec func prioNodeIdle(n) = ringLen(n.ringQueue) == 0 || n.ringQueue.queue[n.ringQueue.index] == nil
+//@ func (*LockManagerPriorityRingQueue).Head
+//@   requires C20.prio.inv: prioNodesOk(self)
+//@   loop#1 invariant -1 <= rangeindex && rangeindex < len(self.priorityNodes) && forall(j, 0, rangeindex + 1, prioNodeIdle(self.priorityNodes[j]))
+//@   ensures C20.prio.head,C04.prio.head: forall(i, 0, len(self.priorityNodes), implies(!prioNodeIdle(self.priorityNodes[i]) && forall(j, 0, i, prioNodeIdle(self.priorityNodes[j])), result == self.priorityNodes[i].ringQueue.queue[self.priorityNodes[i].ringQueue.index]))
+//@   ensures C20.prio.head-empty,C04.prio.head-empty: implies(result == nil, forall(j, 0, len(self.priorityNodes), prioNodeIdle(self.priorityNodes[j])))
+//@   modifies nothing
+//@ spec func lockPrio(l) = ite(l.command.TimeoutFlag&0x0010 != 0, l.command.Rcount, 0)
+//@ func (*LockManagerPriorityRingQueue).Push
+//@   requires C20.prio.inv: prioNodesOk(self) && prioSorted(self) && lock != nil && lock.command != nil && len(self.priorityNodes) < 0x10000 && forall(i, 0, len(self.priorityNodes), allocated(self.priorityNodes[i]) && allocated(self.priorityNodes[i].ringQueue))
+//@   loop#1 invariant -1 <= rangeindex && rangeindex < len(self.priorityNodes) && forall(j, 0, rangeindex + 1, self.priorityNodes[j].priority != lockPriority) && lockPriority == lockPrio(lock)
+//@   loop#2 invariant -1 <= rangeindex && rangeindex < len(priorityNodes) && !inserted && len(self.priorityNodes) == rangeindex + 1 && cap(self.priorityNodes) >= len(priorityNodes) + 1
+//@   loop#2 invariant forall(j, 0, rangeindex + 1, self.priorityNodes[j] == priorityNodes[j] && priorityNodes[j].priority > node.priority)
+//@   loop#2 invariant fresh(arr(self.priorityNodes))
+//@   loop#2 invariant node.priority == lockPrio(lock) && fresh(node) && fresh(node.ringQueue)
+//@   loop#2 invariant ringLen(node.ringQueue) == 0 && ringInv(node.ringQueue)
+//@   loop#2 invariant priorityNodes == old(self.priorityNodes)
+//@   loop#2 invariant forall(j, 0, len(priorityNodes), priorityNodes[j] == old(self.priorityNodes[j]))
+//@   loop#2 invariant forall(j, 0, len(priorityNodes), priorityNodes[j].priority == old(self.priorityNodes[j].priority))
+//@   loop#2 invariant forall(j, 0, len(priorityNodes), priorityNodes[j].ringQueue == old(self.priorityNodes[j].ringQueue))
+//@   ensures C20.prio.push-sorted,C04.prio.push-sorted: prioSorted(self) && forall(i, 0, len(self.priorityNodes), self.priorityNodes[i] != nil && self.priorityNodes[i].ringQueue != nil)
+//@   at call LockManagerRingQueue.Push assert C20.prio.push-into,C04.prio.push-into: node != nil && node.priority == lockPrio(lock) && arg0 == node.ringQueue && arg1 == lock
+//@   ensures C20.prio.push-node,C04.prio.push-node: calls(LockManagerRingQueue.Push) == 1 && len(self.priorityNodes) == old(len(self.priorityNodes)) + calls(NewLockManagerRingQueue) && implies(calls(NewLockManagerRingQueue) == 1, forall(i, 0, len(self.priorityNodes), implies(self.priorityNodes[i].priority == lockPrio(lock), ringLen(self.priorityNodes[i].ringQueue) >= 1 && self.priorityNodes[i].ringQueue.queue[len(self.priorityNodes[i].ringQueue.queue)-1] == lock)))
+//@   modifies LockManagerPriorityRingQueue.priorityNodes@self, LockManagerRingQueue.queue, LockManagerRingQueue.index, E_Pserver_Lock, E_Pserver_LockManagerPriorityRingQueueNode
+//@ func (*LockManagerPriorityRingQueue).Pop
+//@   requires C20.prio.inv: prioNodesOk(self)
+//@   loop#1 invariant prioNodesOk(self) && forall(j, 0, rangeindex + 1, implies(forall(m, 0, j, old(ringLen(self.priorityNodes[m].ringQueue)) == 0), old(prioNodeIdle(self.priorityNodes[j]))))
+//@   loop#1 invariant -1 <= rangeindex && rangeindex < len(self.priorityNodes) && self.priorityNodes == old(self.priorityNodes) && forall(j, 0, len(self.priorityNodes), self.priorityNodes[j] == old(self.priorityNodes[j]) && self.priorityNodes[j].ringQueue == old(self.priorityNodes[j].ringQueue)) && implies(forall(j, 0, rangeindex + 1, old(ringLen(self.priorityNodes[j].ringQueue)) == 0), sameheap(E_Pserver_Lock) && forall(j, 0, len(self.priorityNodes), self.priorityNodes[j].ringQueue.queue == old(self.priorityNodes[j].ringQueue.queue) && self.priorityNodes[j].ringQueue.index == old(self.priorityNodes[j].ringQueue.index)))
+//@   ensures C20.prio.pop,C04.prio.pop: forall(i, 0, len(self.priorityNodes), implies(old(!prioNodeIdle(self.priorityNodes[i])) && forall(j, 0, i, old(ringLen(self.priorityNodes[j].ringQueue)) == 0), result == old(self.priorityNodes[i].ringQueue.queue[self.priorityNodes[i].ringQueue.index])))
+//@   modifies LockManagerRingQueue.queue, LockManagerRingQueue.index, E_Pserver_Lock
+//@ func (*LockManagerPriorityRingQueue).MaxPriority
+//@   requires C20.prio.inv: prioNodesOk(self)
+//@   loop#1 invariant -1 <= rangeindex && rangeindex < len(self.priorityNodes) && forall(j, 0, rangeindex + 1, ringLen(self.priorityNodes[j].ringQueue) == 0 || self.priorityNodes[j].ringQueue.queue[self.priorityNodes[j].ringQueue.index] == nil)
+//@   ensures C20.prio.max,C04.prio.max,C19.prio.max: forall(i, 0, len(self.priorityNodes), implies(ringLen(self.priorityNodes[i].ringQueue) > 0 && self.priorityNodes[i].ringQueue.queue[self.priorityNodes[i].ringQueue.index] != nil && forall(j, 0, i, ringLen(self.priorityNodes[j].ringQueue) == 0), result == self.priorityNodes[i].priority))
+//@   modifies nothing
+
 // the wait queue's inline part mirrors the holder queue's: FIFO over fastQueue[fastIndex:], compaction keeps every live waiter
 // (not timed out, not ack-pending) in order at the next free slot and gives back the reference of every finished one
 //@ spec func waitInline(q) = !isnil(q.fastQueue) && q.fastIndex >= 0 && q.fastIndex < len(q.fastQueue)
